@@ -408,6 +408,10 @@ func main() {
 			e = 1
 		}
 		fmt.Fprintf(w, "case %d\n%sendcase\nobs %d\n%sendobs\n", i, dump, e, dumpBlocks(blocks))
+		if strIn, strObs := dumpStrings(b.Net); true {
+			fmt.Fprintf(w, "%s%sendstr\n", strIn, strObs)
+			kinds["string-renderings-compared"] += strings.Count(strObs, "\n")
+		}
 		if len(samples) < 2 && maxDepth >= 1 {
 			samples = append(samples, fmt.Sprintf("case %d: %s", i, strings.ReplaceAll(dump, "\n", " ; ")))
 		}
